@@ -134,6 +134,10 @@ func c07Case(c *core.Case) {
 			c07DynBodyCase(c)
 			return
 		}
+		if c.Index%25 == 9 {
+			c07DeepDynCase(c)
+			return
+		}
 		c07BodyCase(c)
 		return
 	}
@@ -233,6 +237,18 @@ func c07Case(c *core.Case) {
 
 // specForBody derives an hcldec spec that decodes every attribute and block of
 // an abstract body (blocks without labels).
+var c07Transforms = func() []hcl.Expression {
+	var out []hcl.Expression
+	for _, s := range []string{"[v]", "[v, n]", "{got = v, also = s}", "n", "v == null ? t : v"} {
+		e, d := hclsyntax.ParseExpression([]byte(s), "transform.hcl", hcl.InitialPos)
+		if d.HasErrors() {
+			panic(d.Error())
+		}
+		out = append(out, e)
+	}
+	return out
+}()
+
 func specForBody(b *gen.Body) hcldec.Spec {
 	obj := hcldec.ObjectSpec{}
 	for _, a := range b.Attrs() {
@@ -337,6 +353,95 @@ func c07DynBodyCase(c *core.Case) {
 	}
 }
 
+// c07DeepDynCase: four levels of nested dynamic blocks with static siblings
+// after the nested dynamic block at each level; references are drawn from
+// globals that are named like the block types / default iterators, so whether a
+// name is an iterator or a global depends on where it stands.
+func c07DeepDynCase(c *core.Case) {
+	r := c.Rng
+	names := []string{"a", "b", "c", "d"}
+	itObj := func(tag string) cty.Value {
+		return cty.ObjectVal(map[string]cty.Value{"key": cty.StringVal("gk-" + tag), "value": cty.StringVal("gv-" + tag)})
+	}
+	full := map[string]cty.Value{"g": itObj("g"), "unused": cty.True}
+	for _, n := range names {
+		full[n] = itObj(n)
+		var els []cty.Value
+		for i := 1 + r.Intn(2); i > 0; i-- {
+			els = append(els, cty.StringVal(fmt.Sprintf("%s%d", n, i)))
+		}
+		full["l"+n] = cty.ListVal(els)
+	}
+	ref := func() string {
+		n := gen.Pick(r, []string{"a", "b", "c", "d", "g"})
+		return gen.Pick(r, []string{n + ".value", n + ".key", "\"${" + n + ".key}/${" + gen.Pick(r, names) + ".value}\"", "[" + n + ".value, g.key]"})
+	}
+	var build func(level int, ind string) (string, hcldec.Spec)
+	build = func(level int, ind string) (string, hcldec.Spec) {
+		n := names[level]
+		var sb strings.Builder
+		coll := "l" + n
+		if level > 0 && gen.Chance(r, 0.3) {
+			coll = "[" + ref() + ", \"x\"]"
+		}
+		sb.WriteString(ind + "dynamic \"" + n + "\" {\n" + ind + "  for_each = " + coll + "\n" + ind + "  content {\n")
+		obj := hcldec.ObjectSpec{}
+		var parts hcldec.TupleSpec
+		if gen.Chance(r, 0.5) {
+			sb.WriteString(ind + "    pre = " + ref() + "\n")
+			obj["pre"] = &hcldec.AttrSpec{Name: "pre", Type: cty.DynamicPseudoType}
+		}
+		if level+1 < len(names) {
+			inner, ispec := build(level+1, ind+"    ")
+			sb.WriteString(inner)
+			parts = append(parts, ispec)
+		}
+		// static siblings that come after the nested dynamic block
+		for _, sib := range []string{"e", "f"} {
+			if gen.Chance(r, 0.6) {
+				sb.WriteString(ind + "    " + sib + " {\n" + ind + "      v = " + ref() + "\n" + ind + "    }\n")
+				parts = append(parts, &hcldec.BlockTupleSpec{TypeName: sib, Nested: hcldec.ObjectSpec{"v": &hcldec.AttrSpec{Name: "v", Type: cty.DynamicPseudoType}}})
+			}
+		}
+		if gen.Chance(r, 0.4) {
+			sb.WriteString(ind + "    post = " + ref() + "\n")
+			obj["post"] = &hcldec.AttrSpec{Name: "post", Type: cty.DynamicPseudoType}
+		}
+		sb.WriteString(ind + "  }\n" + ind + "}\n")
+		// the order in which the parts are decoded is the spec's: any permutation
+		r.Shuffle(len(parts), func(i, j int) { parts[i], parts[j] = parts[j], parts[i] })
+		obj["parts"] = parts
+		return sb.String(), &hcldec.BlockTupleSpec{TypeName: n, Nested: obj}
+	}
+	src, spec := build(0, "")
+	f, pd := hclsyntax.ParseConfig([]byte(src), "deep.hcl", hcl.InitialPos)
+	if pd.HasErrors() {
+		c.HarnessError("deep dynamic template does not parse: " + diagStr(pd))
+		return
+	}
+	c.SetInput(src)
+	p := &c07Prog{src: src, kind: "deep-dynblock-body",
+		vars: func() []hcl.Traversal {
+			return append(dynblock.ExpandVariablesHCLDec(f.Body, spec), dynblock.VariablesHCLDec(f.Body, spec)...)
+		},
+		eval: func(ctx *hcl.EvalContext) (cty.Value, hcl.Diagnostics) {
+			return hcldec.Decode(dynblock.Expand(f.Body, ctx), spec, ctx)
+		}}
+	c.Count("route:deep-dynblock-body")
+	rule, msg := c07Judge(c, p, full, func(name string, v cty.Value) cty.Value {
+		if v.Type().IsObjectType() {
+			return cty.ObjectVal(map[string]cty.Value{"key": cty.StringVal("changed-key"), "value": cty.StringVal("changed-value")})
+		}
+		return cty.StringVal("changed")
+	})
+	if rule != "" {
+		c.Violation(rule+"/"+p.kind, fmt.Sprintf("body\n%s\n%s", trunc(src, 900), msg), nil)
+		return
+	}
+	c.Count("three-scope-relation-held")
+	c.NonTrivial(src)
+}
+
 func c07BodyCase(c *core.Case) {
 	r := c.Rng
 	sc := gen.NewScope(r, gen.ValOpts{StrLevel: 1})
@@ -392,6 +497,31 @@ func c07BodyCase(c *core.Case) {
 		collect(spec)
 		gen.Pick(r, objs)["zz_required"] = &hcldec.AttrSpec{Name: "zz_required", Type: cty.String, Required: true}
 		c.Count("spec:with-missing-required-argument")
+	}
+	if gen.Chance(r, 0.15) {
+		// a transform expression belongs to the specification: what it may see is its
+		// own context (none here) and its variable, never the decoding scope
+		var objs []hcldec.ObjectSpec
+		var collect func(s hcldec.Spec)
+		collect = func(s hcldec.Spec) {
+			if o, ok := s.(hcldec.ObjectSpec); ok {
+				objs = append(objs, o)
+				for _, sub := range o {
+					if bt, ok := sub.(*hcldec.BlockTupleSpec); ok {
+						collect(bt.Nested)
+					}
+				}
+			}
+		}
+		collect(spec)
+		o := gen.Pick(r, objs)
+		for _, k := range gen.SortedKeys(o) {
+			if as, ok := o[k].(*hcldec.AttrSpec); ok {
+				o[k] = &hcldec.TransformExprSpec{Wrapped: as, Expr: gen.Pick(r, c07Transforms), VarName: "v"}
+				c.Count("spec:transform-expression-without-context")
+				break
+			}
+		}
 	}
 	src := gen.RenderNative(body, gen.CanonicalFileLayout())
 	useDyn := gen.Chance(r, 0.4)
